@@ -67,6 +67,15 @@ func (c *aggCase) snapshot() *stack.Snapshot {
 		// two thirds of the snapshots look as after path guessing and source analysis
 		gen.Resolve(s)
 	}
+	if sum%7 == 2 {
+		// a race report: every goroutine carries an address, and the operations are listed in an order that is
+		// not the order of the ids
+		for i, g := range s.Goroutines {
+			g.RaceAddr = 0xc000012340 + uint64(8*(i%2))
+			g.RaceWrite = i%2 == 0
+			g.ID = 100 - i
+		}
+	}
 	if n := len(s.Goroutines); n > 1 && sum%5 == 1 {
 		// a snapshot constructed directly (e.g. goroutines sorted by a caller): the crashing goroutine is not the
 		// first element of the list
@@ -239,6 +248,10 @@ func aggEvalMultiset(r *core.Run, uname string, idx []int, allPerms bool) {
 		}
 		c := &aggCase{Universe: uname, Idx: order}
 		s := c.snapshot()
+		posOf := map[int]int{} // goroutine id -> position in the snapshot (ids are not always 1..n)
+		for i, g := range s.Goroutines {
+			posOf[g.ID] = i
+		}
 		parts := aggEvalSnap(r, s, c)
 		if r.Prop != "C05" || p == nil {
 			continue
@@ -249,7 +262,7 @@ func aggEvalMultiset(r *core.Run, uname string, idx []int, allPerms bool) {
 			for _, cls := range parts[li] {
 				var m []int
 				for _, id := range cls {
-					m = append(m, p[id-1])
+					m = append(m, p[posOf[id]])
 				}
 				sort.Ints(m)
 				norm[li] = append(norm[li], m)
